@@ -90,6 +90,63 @@ func init() {
 			repo := "git@example.org:o/r.git"
 			ki := i % len(keys)
 			key := keys[ki]
+			// the env may be handed over in several options: none of the caller's maps is written to, and what was
+			// signed verifies under the union of them
+			if i%4 == 1 && len(penv) > 0 {
+				if p3, err3 := pipeline.Parse(strings.NewReader(text)); (err3 == nil || warning.Is(err3)) && !hasUnknownDeep(p3.Steps) {
+					ea, eb, all := map[string]string{}, map[string]string{}, map[string]string{}
+					for j, k := range sortedKeys(penv) {
+						if j%2 == 0 {
+							ea[k] = penv[k]
+						} else {
+							eb[k] = penv[k]
+						}
+						all[k] = penv[k]
+					}
+					if rng.Chance(50) {
+						eb["SHARED_NAME"], ea["SHARED_NAME"], all["SHARED_NAME"] = "from b", "from a", "from b"
+					}
+					sa, sb := fmt.Sprint(ea), fmt.Sprint(eb)
+					var serr3 error
+					func() {
+						defer func() {
+							if r := recover(); r != nil {
+								serr3 = fmt.Errorf("panic: %v", r)
+							}
+						}()
+						serr3 = signature.SignSteps(context.Background(), p3.Steps, key.priv, repo, signature.WithEnv(ea), signature.WithEnv(eb))
+					}()
+					ce := sx.L(sx.A("two-env-options"), sx.A(text), sx.A(sa), sx.A(sb))
+					if serr3 != nil {
+						oracleFail("C06", "two-env-options", ce, "SignSteps: "+serr3.Error())
+					} else if fmt.Sprint(ea) != sa || fmt.Sprint(eb) != sb {
+						oracleFail("C06", "env-modified", ce, fmt.Sprintf("SignSteps modified an env map it was given: %s -> %v, %s -> %v", sa, ea, sb, eb))
+					} else {
+						var bad3 string
+						var walk3 func(ss pipeline.Steps)
+						walk3 = func(ss pipeline.Steps) {
+							for _, s := range ss {
+								switch t := s.(type) {
+								case *pipeline.CommandStep:
+									if t.Signature == nil {
+										bad3 = "unsigned command step"
+									} else if verr := verifyStep(key, t.Signature, t, repo, all); verr != nil {
+										bad3 = verr.Error()
+									}
+								case *pipeline.GroupStep:
+									walk3(t.Steps)
+								}
+							}
+						}
+						walk3(p3.Steps)
+						if bad3 != "" {
+							oracleFail("C06", "two-env-options", ce, "a step signed with the env given in two options does not verify under their union: "+bad3)
+						} else {
+							stat("C06", "two-env-options")
+						}
+					}
+				}
+			}
 			// a command step that cannot be signed (its plugin config holds a value with no JSON form), somewhere in
 			// the list: success would promise a verifying signature on every command step, so signing must refuse
 			if i%8 == 3 {
